@@ -29,6 +29,7 @@ type Engine struct {
 	addrTaken []*ssa.Function
 	impNames  map[string]map[string]string
 	cellCache map[*ssa.Function]map[string]*cellInfo
+	globLen   map[*ssa.Global]int64
 }
 
 // Term is an SMT term with its sort and (when known) Go type.
